@@ -97,6 +97,7 @@ static bool within_reach(const graphite2::ShiftCollider &coll, const graphite2::
     const graphite2::Rect &L = coll._limit; float m = coll._margin;
     return (sx + nb.xa + m >= L.bl.x && sx + nb.xi - m <= L.tr.x) || (sy + nb.ya + m >= L.bl.y && sy + nb.yi - m <= L.tr.y);
 }
+static const void *g_res_target = nullptr; static float g_res_shx = 0, g_res_shy = 0; static bool g_res_finite = false, g_res_iscol = false, g_res_ltr_asym = false;
 static std::vector<const void*> g_merged; static const void *g_merge_target = nullptr; static ShardCtl *g_ectl = nullptr; static uint64_t g_eidx = 0; static std::string g_edesc; static int g_edir = 0; static bool g_efailed = false;
 extern "C" void graphite2_verif_coll_merge(const void *, const void *target, const void *nbor) { if (target != g_merge_target) { g_merged.clear(); g_merge_target = target; } g_merged.push_back(nbor); }
 extern "C" void graphite2_verif_coll_resolved(const void *segp, const void *targetp, const void *collp, float shx, float shy, int is_col) {
@@ -134,8 +135,23 @@ extern "C" void graphite2_verif_coll_resolved(const void *segp, const void *targ
                 if (worst > 0.05f) { why = "glyph reported as resolved still overlaps a merged neighbour"; snprintf(detail, sizeof detail, "target gid %u neighbour gid %u penetration %.3f shift=(%g,%g)", tg, ng, worst, shx, shy); break; } }
         }
     }
-    g_merged.clear(); g_merge_target = nullptr;
+    g_res_target = targetp; g_res_shx = shx; g_res_shy = shy; g_res_finite = finite; g_res_iscol = is_col != 0; g_res_ltr_asym = ltr_asym;       // the merged list is kept for the stored-state hook
     if (why && !g_efailed) { g_efailed = true; JObj o; o.kv("kind", "collision_resolve").kv("why", why).kv("detail", detail).kv("case_desc", g_edesc).kv("dir", g_edir); report_fail(g_eidx, o); }
+}
+// after the engine has stored the shift and updated the flags: a glyph whose collision-remains flag is clear must not overlap the merged neighbours at its STORED shift
+extern "C" void graphite2_verif_coll_stored(const void *segp, const void *targetp, const void *collp) {
+    using namespace graphite2; Segment *seg = (Segment*)segp; Slot *t = (Slot*)targetp; ShiftCollider *coll = (ShiftCollider*)collp; SlotCollision *ct = seg->collisionInfo(t);
+    const char *why = nullptr; char detail[256] = "";
+    if (g_res_target == targetp && g_res_finite && !g_res_ltr_asym && g_merge_target == targetp) {
+        bool flag_iscol = (ct->flags() & SlotCollision::COLL_ISCOL) != 0;
+        if (flag_iscol != g_res_iscol) { why = "collision-remains flag differs from the verdict of the fix just computed"; }
+        else if (!flag_iscol) { const Position sh = ct->shift(); if (g_ectl) g_ectl->counters[5] = g_ectl->counters[5] + 1;
+            // the verdict was computed for the shift resolve() returned (checked geometrically in the resolve hook): that shift must be the one that is stored
+            // (neighbours that are attached to the target are re-finalised in between, so the geometry is not re-evaluated here)
+            if (std::fabs(sh.x - g_res_shx) > 1e-3f || std::fabs(sh.y - g_res_shy) > 1e-3f) { why = "glyph flagged as resolved, but the stored shift is not the shift the verdict was computed for"; snprintf(detail, sizeof detail, "target gid %u stored shift=(%g,%g) computed=(%g,%g)", unsigned(t->gid()), sh.x, sh.y, g_res_shx, g_res_shy); } }
+    }
+    g_merged.clear(); g_merge_target = nullptr; g_res_target = nullptr;
+    if (why && !g_efailed) { g_efailed = true; JObj o; o.kv("kind", "collision_stored").kv("why", why).kv("detail", detail).kv("case_desc", g_edesc).kv("dir", g_edir); report_fail(g_eidx, o); }
 }
 
 // KernCollider::resolve observed through the hook: accumulated kern offset + new kern inside the x range of a well-formed limit rectangle
@@ -347,7 +363,7 @@ static void extra_e(const Runner &r, JObj &o) { o.kv("resolves_observed", (unsig
 int main(int argc, char **argv) {
     std::vector<Sub> subs;
     { Sub s; s.name = "zones_sequences"; s.setup = setup_zones; s.budget_quick = 120; s.budget_thorough = 900; s.counter_names = { "operations" }; s.extra = extra_z; subs.push_back(s); }
-    { Sub s; s.name = "end_to_end"; s.setup = setup_e2e; s.budget_quick = 120; s.budget_thorough = 900; s.counter_names = { "resolves", "limit_clause_checked", "neighbour_pairs_checked", "kern_resolves", "kern_limit_clause_checked" }; s.extra = extra_e; subs.push_back(s); }
+    { Sub s; s.name = "end_to_end"; s.setup = setup_e2e; s.budget_quick = 120; s.budget_thorough = 900; s.counter_names = { "resolves", "limit_clause_checked", "neighbour_pairs_checked", "kern_resolves", "kern_limit_clause_checked", "stored_shifts_checked" }; s.extra = extra_e; subs.push_back(s); }
     { Sub s; s.name = "collider_lattice"; s.setup = setup_lattice; s.budget_quick = 140; s.budget_thorough = 1200; s.counter_names = { "arrangements", "limit_clause_checked", "verdict_checked", "with_collision", "repeat_failures_not_reported" }; s.extra = extra_l; subs.push_back(s); }
     { Sub s; s.name = "collider_lattice2"; s.setup = setup_lattice2; s.budget_quick = 150; s.budget_thorough = 1500; s.counter_names = { "arrangements", "limit_clause_checked", "verdict_checked", "with_collision", "repeat_failures_not_reported" }; s.extra = extra_l; subs.push_back(s); }
     { Sub s; s.name = "collider_lattice_seq"; s.setup = setup_lattice_seq; s.budget_quick = 120; s.budget_thorough = 900; s.counter_names = { "arrangements", "limit_clause_checked", "verdict_checked", "with_collision", "repeat_failures_not_reported" }; s.extra = extra_l; subs.push_back(s); }
